@@ -1,4 +1,32 @@
-(* placeholder until the proofs are integrated *)
-From DictIO Require Import Chars Str Value Scalar.
-Theorem C02_placeholder : True. Proof. exact I. Qed.
-Print Assumptions C02_placeholder.
+(* C02  Native reader is layout-tolerant (token level) and literal spellings are equivalent. *)
+From Coq Require Import String.   (* string literals of the closing example; imported first so the list names win *)
+From Coq Require Import NArith ZArith List Bool.
+From DictIO Require Import Chars Str Value Scalar Lexer LayoutSpec LayoutProofs.
+Import ListNotations.
+
+(* whatever white space (blanks, tabs, LF, CRLF, any amount) separates the lexemes, and whether or not delimiters
+   are glued to their neighbours: delimiter separation + tokenising yields exactly the lexeme list *)
+Theorem C02_layout_tokens : forall ls txt w1 w2, Forall lexeme ls -> rendering ls txt -> ws_run w1 -> ws_run w2 ->
+  filter nonempty (tokenize (separate_delimiters (w1 ++ txt ++ w2))) = ls.
+Proof. exact layout_tokens. Qed.
+Print Assumptions C02_layout_tokens.
+
+(* hence two renderings of the same lexemes tokenise alike *)
+Theorem C02_layout_independent : forall ls a b, Forall lexeme ls -> rendering ls a -> rendering ls b ->
+  filter nonempty (tokenize (separate_delimiters a)) = filter nonempty (tokenize (separate_delimiters b)).
+Proof. exact layout_independent. Qed.
+Print Assumptions C02_layout_independent.
+
+(* accepted spellings of booleans and none, in any letter case *)
+Theorem C02_bool_spellings : forall s,
+  ((lower s = w_true \/ lower s = w_on) -> parse_value s = Ok (SBool true)) /\
+  ((lower s = w_false \/ lower s = w_off) -> parse_value s = Ok (SBool false)) /\
+  ((lower s = w_none \/ lower s = w_null) -> parse_value s = Ok SNone).
+Proof. exact bool_none_spellings. Qed.
+Print Assumptions C02_bool_spellings.
+
+Example C02_example :
+  filter nonempty (tokenize (separate_delimiters (of_string "a{b  1;c(1 2);}"))) =
+  filter nonempty (tokenize (separate_delimiters (of_string " a {
+ b 1 ;	c ( 1   2 ) ; } "))).
+Proof. vm_compute. reflexivity. Qed.
